@@ -1,9 +1,11 @@
 """C10 - Regenerated profile text preserves every token (grammar-level analysis).
 
-R1/R2/R5/R7/R9 work on the compiled grammar (R7: on its terminal table).  R3 and R8 are about the Python side of the round
+R1/R2/R5/R7/R9/R10 work on the compiled grammar (R7, R10: on its terminal table, R10 also on the LALR table).  R3 and R8 are about the Python side of the round
 trip and locate their subjects by role:
 
-* the *renderer* is the function of c2profile.py that calls `.reconstruct(...)` on a lark `Reconstructor(...)`
+* the *renderer* is the function of c2profile.py that calls `.reconstruct(...)` on a lark `Reconstructor(...)` or on an
+  instance of a package class whose single-inheritance chain ends in lark's Reconstructor (what such a class overrides is
+  R11's subject; a constructor of its own makes the parser argument unlocated: undecided)
   (`C2Profile.as_text` if it still does; temporaries, a module-level reconstructor, positional or keyword arguments do
   not matter); the *reader* is the function that assigns a `.parse(...)` result to a `.tree` attribute
   (`C2Profile.from_text`);
@@ -62,6 +64,23 @@ trip and locate their subjects by role:
   cannot render (recursion / a block outside braces, too many alternatives) makes the contexts at and below it that miss a
   form undecided.
 
+* R10 (every keyword / option word is lexed whole - the assumption under which R9 may replace a terminal by its words):
+  python's alternation is leftmost-first; lark joins the string alternatives of ONE terminal longest-first and tries the
+  terminals of a state in the order (priority, width, pattern length, name).  (a) in the compiled pattern of a terminal
+  that is a finite alternation of literals no word stands behind a proper prefix of itself (order of the syntax tree,
+  depth first) - sub-terminals inside a terminal are ordered per group only, a hand-written regexp not at all; (b) no
+  state of the LALR table accepts two non-ignored terminals of which the one tried first has a word that is a proper
+  prefix of a word of the other.  A regexp terminal with an alternation that is not a finite set of literals -> undecided
+  (STRING is R6's subject).
+* R11 (every node is printed by lark's tree matcher): the class of the reconstructor object is lark's own, or a package
+  subclass that overrides nothing of lark's Reconstructor API, or one whose `_reconstruct(tree)` override hands the same
+  node to the inherited method on every emitting path.  A shortcut path (an emission that is not that delegation) is judged
+  by case analysis over the grammar's tree names against the literals its dominating tests compare `tree.data` with: some
+  admitted name has a production with filtered terminals, all tests of the path are understood and the emission is
+  computed from the node alone -> violated (the filtered tokens are not in the node; a node NAME is shared by
+  productions of different rules, only the matcher tells them apart).  A test the rule does not understand, an emission
+  using other data, a path without emission, other overridden API methods -> undecided.
+
 Undecided (never violated): no reconstruct call / no post-processor function can be located, or the post-processor has
 a form the value flow does not recognise (`_Undecided`, `_Unk` values: several buffers, a pipeline of generators, zip or
 comprehension based emission, `try`/`with`/general `while`).  Nothing of /repo is imported or executed.
@@ -96,6 +115,15 @@ Technique (numbers: RULES_GUIDE "What counts as static here", ALLOWED 1-6)
       lexer order; regexp terminals and string terminals inspected as syntax trees: first-character classes, the shape
       F C* of an ignored terminal, existence of a word of another terminal inside F C* by a walk over its tree with a
       two-valued state) + 5 (the terminal vocabulary is the grammar's own).  No text is lexed, no sample string is formed.
+  R10 6 (compiled terminal table: the words of every terminal in the order of its regex syntax tree, lark's documented
+      terminal order, the action table of the compiled LALR parser for `which terminals does one state accept`; words
+      compared with each other for the proper-prefix relation) + 5 (the vocabulary is the grammar's own).  No text is
+      lexed, no `re` is run.
+  R11 1 (class of the reconstructor object by resolved callee and base classes; method names compared with the attribute
+      names of lark's Reconstructor class) + 2 (dominating branch tests of an emission, CFG reachability of the exit
+      avoiding the emissions) + 5 (case analysis over the tree names of the compiled grammar against the literals the
+      tests compare the node name with) + 3 (locals computed from the node alone: def-use fixpoint) + 6 (filtered
+      terminals of the productions that share a tree name).
   R8  1 (reader / renderer by role, resolved callees, argument binding) + 3 (def-use / may-alias value flow over names and
       dotted paths, flow-insensitive fixpoint per function, summaries of package callees per abstract argument kinds);
       the abstract domain has three values (part of the tree / fresh collection of parts / profile holding a tree).
@@ -140,7 +168,10 @@ def run(ctx):
         "whitespace word - decided on the terminal table and regex syntax trees. Plus (R8) no function that obtains the "
         "parser's tree (reader, renderer, what they call, any other function of c2profile.py that gets a parsed profile) "
         "structurally modifies a part of it - a may-alias value flow from the `.parse(...)` result / the profile's `.tree` to "
-        "mutator calls, item stores / deletes and `.children` / `.data` stores."
+        "mutator calls, item stores / deletes and `.children` / `.data` stores. Plus (R10) every keyword / option word is lexed whole: in the compiled pattern of an alternation terminal "
+        "(OPTION) no word stands behind a proper prefix of itself in python's leftmost-first order, and no state of the LALR table accepts two terminals of which the one lark's lexer tries first has a "
+        "word that is a proper prefix of a word of the other. Plus (R11) the reconstructor object is lark's Reconstructor, or a package subclass whose per-node step `_reconstruct` hands every node to the "
+        "inherited tree matcher; a shortcut path that is taken for a node name with a production whose keywords are filtered out of the tree is a violation."
     )
     rep.not_decided = ["text equality for all sentences of the language", "whitespace handling by the lexer",
                        "R3: which parser object a module-level name denotes when it is not bound (only) to lark `Lark(...)` / `Lark.open(...)` constructions (result of a loader function, "
@@ -154,12 +185,21 @@ def run(ctx):
                        "modify), by methods the application calls between from_text and as_text (builder API), through a `tree` property / __setattr__ hook, or through aliases kept in containers"]
     rep.not_decided.append("R9: statement forms the grammar accepts beyond the reference table (additions are not judged); the ORDER constraints inside a block (steps before the termination "
                            "statement of a data transform); productions the language view cannot render (a block or recursion outside the braces of a production): undecided")
+    rep.not_decided.append("R10: regexp terminals with an alternation that is not a finite set of literals (undecided); lexing of STRING (R6)")
+    rep.not_decided.append("R11: overrides of other methods of lark's Reconstructor API than `_reconstruct`, a subclass with several bases or a constructor of its own, shortcut paths guarded by tests "
+                           "other than comparisons of `tree.data` with literals or emitting data that is not computed from the node: undecided")
     rep.trusted_base = ["lark 1.3.1 grammar loader and its TreeMatcher grouping rule (lark/tree_matcher.py: rules equal on (origin, kept expansion) are merged, first wins)",
                         "lark 1.3.1 Reconstructor.reconstruct(tree, postproc=None, insert_spaces=True): the item stream (one str per terminal of the matched rules, in sentence order) is passed "
                         "through postproc and joined; with insert_spaces a space is put between two consecutive non-empty yielded strings whose facing characters are identifier characters",
                         "reference table `_LANGUAGE` in rules/c10.py: the statement forms of the Malleable C2 profile language per block context (34 contexts, 320 forms) as supported by the "
                         "grammar this checker was written against - the meaning of `every statement form the grammar supports` in the property",
                         "CPython ast; python's sre parser for the syntax tree of regexp terminals",
+                        "python `re`: an alternation takes the first alternative (in pattern order, depth first) with which the rest of the pattern matches - for a terminal that is a finite "
+                        "alternation of literals, the first word in that order that is a prefix of the text (R10)",
+                        "lark 1.3.1 contextual lexer: the scanner of a parser state holds the terminals the state's action table accepts plus the ignored ones (lark/lexer.py ContextualLexer); "
+                        "lark's compiled LALR action table (parser.parser._parse_table.states) is read as data",
+                        "lark 1.3.1 Reconstructor._reconstruct(tree) is the per-node step: it is called for the root and, recursively through `self._reconstruct`, for every subtree; the parser "
+                        "does not store filtered-out terminals in the tree (R11)",
                         "lark 1.3.1 lexer (lark/lexer.py): BasicLexer sorts the terminals by (-priority, -max_width, -len(pattern), name) and its Scanner joins them into one alternation, so the "
                         "first terminal in that order that matches at a position wins; the contextual lexer does the same per parser state with the terminals the state accepts plus the ignored ones",
                         "lark Tree / Token API: a Tree's tokens live in `.children` (recursively) and `.data`; Tree.copy() shares the children list; Token is an immutable str; "
@@ -186,6 +226,8 @@ def run(ctx):
     r5(ctx, g)
     r9(ctx, g)
     r7(ctx, g)
+    r10(ctx, g)
+    r11(ctx, g)
     r8(ctx, g)
     # the STRING terminal decides where a literal ends: its regex structure (C12.R4) is a necessary condition for every
     # valid profile to lex into the tokens written
@@ -2583,12 +2625,34 @@ def _module_value(f: Func, e):
     return e
 
 
+def _recon_class_chain(ctx, f: Func, call: ast.Call):
+    """The class a constructor call instantiates, as seen from lark's Reconstructor: [] when it IS lark's Reconstructor
+    (resolved through the imports), [(class symbol, ClassDef), ...] (most derived first) when it is a package class whose
+    single-inheritance chain ends in lark's Reconstructor, None otherwise (another class, several bases, not resolvable)."""
+    d = dotted(call.func)
+    s = ctx.rs.lookup_dotted(f.module.name, d) if d else None
+    chain, seen = [], set()
+    while s is not None:
+        if s.kind == "external":
+            n = s.name or ""
+            return chain if n.startswith("lark") and n.split(".")[-1] == "Reconstructor" else None
+        if s.kind != "class" or s.fq in seen or s.module not in ctx.repo.modules:
+            return None
+        seen.add(s.fq)
+        node = ctx.repo.modules[s.module].classes.get(s.name)
+        if node is None or len(node.bases) != 1 or node.keywords:
+            return None
+        chain.append((s, node))
+        bd = dotted(node.bases[0])
+        s = ctx.rs.lookup_dotted(s.module, bd) if bd else None
+    return None
+
+
 def _is_reconstructor(ctx, f: Func, e) -> bool:
+    """A lark `Reconstructor(...)` construction, or that of a package subclass of it (what the subclass overrides is R11's
+    subject)."""
     e = _module_value(f, _inl(f, e))
-    if isinstance(e, ast.Call):
-        n = _external_name(ctx, f, e)
-        return bool(n) and n.split(".")[-1] == "Reconstructor" and n.startswith("lark")
-    return False
+    return isinstance(e, ast.Call) and _recon_class_chain(ctx, f, e) is not None
 
 
 def _reconstruct_calls(ctx, f: Func):
@@ -2761,6 +2825,9 @@ def r3(ctx, g=None):
         for c, mk in calls:
             parser = _lark_arg(mk, 0, "parser")
             pid, unl = _parser_binding(ctx, f, parser) if parser is not None else (None, None)
+            if any(isinstance(st, ast.FunctionDef) and st.name in ("__init__", "__new__") for _s, node in (_recon_class_chain(ctx, f, mk) or []) for st in node.body):
+                # a subclass with a constructor of its own: the arguments at the call are not lark's signature
+                pid, unl = None, "the reconstructor class defines its own constructor: which parser it hands to lark's Reconstructor is not located"
             if pid is None and unl:
                 unlocated.append(unl)
             elif parser is None or pid is None:
@@ -3343,6 +3410,378 @@ def r7(ctx, g: Grammar):
                    + (f"; terminals starting alike but tried after it: {behind}" if behind else "; no terminal of a reachable rule starts with a character it can start with"),
                    nontrivial=bool(behind))
     ctx.rep.count("ignored_terminals", len(ignored), floor=3)
+
+
+# =====================================================================================================================
+# R10 - every keyword / option word of the grammar is lexed WHOLE (R9 replaces the OPTION terminal by its words and the
+# keyword terminals by their text: that is only the language the parser accepts if the lexer can produce each of these
+# words as ONE token).
+#
+# python's alternation is leftmost-first, not longest-match.  lark hides this for the common cases by ordering: the
+# string alternatives of ONE terminal are joined longest-first, the terminals of a lexer state are tried in the order
+# (-priority, -max_width, -len(pattern), name).  Both orders are properties of the COMPILED terminal table and can be lost
+# without a word of the vocabulary changing (sub-terminals inside a terminal are ordered per group only; a priority or a
+# width puts a short terminal in front of a long one).  Conditions, on the compiled table:
+#   (a) inside a terminal that is a finite alternation of literals, in the priority order of its regex syntax tree
+#       (first alternative first, depth first), no word is preceded by a proper prefix of itself - otherwise `re` stops at
+#       the prefix, the terminal yields the prefix and the rest of the word is lexed on its own (or not at all);
+#   (b) in no state of the LALR table are two non-ignored terminals T1, T2 both acceptable where T1 is tried before T2 and
+#       a word of T1 is a proper prefix of a word of T2 (contextual lexer: a state's alternation holds the terminals the
+#       state accepts plus the ignored ones; basic lexer: all terminals).
+# Both are decided by comparing the finitely many words of the terminal table with each other (technique 6 / 5): no text
+# is lexed, no `re` is run.
+# =====================================================================================================================
+def _priority_words(t):
+    """The words of a terminal in the order python's `re` tries them (None: not a finite alternation of literals)."""
+    if type(t.pattern).__name__ == "PatternStr":
+        return [t.pattern.value]
+    if t.pattern.flags:
+        return None
+    tree = _regex_tree(t.pattern.value)
+    return _regex_literals(tree) if tree is not None else None
+
+
+def _shadowed(words, before=None):
+    """[(word, the proper prefix tried before it)]: within one priority-ordered word list, or against an earlier list."""
+    out = []
+    for k, w in enumerate(words):
+        for u in (words[:k] if before is None else before):
+            if u and len(u) < len(w) and w.startswith(u):
+                out.append((w, u))
+                break
+    return out
+
+
+def r10(ctx, g: Grammar):
+    where = "c2profile.lark"
+    defs = {t.name: t for t in getattr(g.lark, "terminals", [])}
+    lx = _lexicon(ctx, g)
+    used = sorted({s.name for r in g.rules for s in r.expansion if s.is_term} - set(g.ignored))
+    words = {n: _priority_words(defs[n]) for n in used if n in defs}
+    # ---------------------------------------------------------------- (a) inside one terminal
+    n_alt = 0
+    for name in used:
+        t = defs.get(name)
+        if t is None or type(t.pattern).__name__ == "PatternStr" or lx.of_terminal.get(name) == {_STRING_CLASS}:
+            continue  # a plain string has one word; the STRING terminal is R6's subject
+        text = f"terminal {name}: every word is lexed whole"
+        ws = words.get(name)
+        if ws is None:
+            tree = None if t.pattern.flags else _regex_tree(t.pattern.value)
+            if tree is not None and not any(str(n[0]) == "BRANCH" for n in _tree_items(tree)):
+                continue  # no alternation: the order of alternatives is not in play
+            ctx.undecided("R10", "GRAM", where, text, f"{name} = {t.pattern.value[:80]!r} is not a finite alternation of literals: which alternative python's leftmost-first alternation "
+                          "takes is not decided from the syntax tree")
+            continue
+        n_alt += 1
+        bad = _shadowed(ws)
+        ctx.ob("R10", "GRAM", where, text, not bad,
+               (f"the {len(ws)} words of {name}, in the order python's leftmost-first alternation tries them (compiled pattern, syntax tree): no word comes after a proper prefix of itself, "
+                f"so the regex matches each word completely") if not bad else
+               (f"in the compiled pattern of {name} the alternative `{bad[0][1]}` is tried before `{bad[0][0]}` (python's alternation takes the first alternative that matches, lark orders "
+                f"longest-first only inside one group of string alternatives): on the text `{bad[0][0]}` the terminal yields `{bad[0][1]}` and the rest is lexed on its own - the statement "
+                f"form with the word `{bad[0][0]}` is no longer accepted / read as written" + (f" (also: {', '.join(w for w, _u in bad[1:4])})" if len(bad) > 1 else "")),
+               nontrivial=len(ws) > 1)
+    ctx.rep.count("alternation_terminals", n_alt, floor=1)
+    # ---------------------------------------------------------------- (b) between the terminals of one lexer state
+    text = "keyword terminals acceptable in one parser state: the longer word is tried first"
+    if g.options.get("parser") != "lalr" or g.options.get("lexer") not in (None, "basic", "contextual", "standard"):
+        ctx.undecided("R10", "GRAM", where, text, f"parser options {g.options}: the terminal order of lark's lalr lexers is what this rule reasons about")
+        return
+
+    def key(t):
+        return (-t.priority, -t.pattern.max_width, -len(t.pattern.value), t.name)
+
+    pairs = {}
+    for a in used:
+        for b in used:
+            if a == b or a not in defs or b not in defs or not words.get(a) or not words.get(b) or not key(defs[a]) < key(defs[b]):
+                continue
+            hit = _shadowed(words[b], before=words[a])
+            if hit:
+                pairs[(a, b)] = hit[0]
+    states = None
+    if g.options.get("lexer") in (None, "contextual"):
+        try:
+            table = g.lark.parser.parser._parse_table.states
+            states = [set(acts) for acts in table.values()]
+        except AttributeError:
+            states = None
+    else:
+        states = [set(used)]
+    undecidable = sorted(n for n in used if n in defs and words.get(n) is None and lx.of_terminal.get(n) != {_STRING_CLASS})
+    if not pairs:
+        ctx.ob("R10", "GRAM", where, text, True, f"no word of a terminal that lark's lexer tries earlier (order: priority, width, pattern length, name) is a proper prefix of a word of a terminal tried later "
+               f"({len(used)} terminals of reachable rules compared pairwise by their words" + (f"; not compared: {undecidable}" if undecidable else "") + ")")
+        return
+    if states is None:
+        ctx.undecided("R10", "GRAM", where, text, f"{len(pairs)} pair(s) of terminals where the shorter word is tried first (e.g. {sorted(pairs)[0]}), but the LALR table that says whether a state accepts both "
+                      "is not accessible")
+        return
+    live = sorted((a, b) for (a, b) in pairs if any(a in s and b in s for s in states))
+    if live:
+        a, b = live[0]
+        w, u = pairs[(a, b)]
+        ctx.ob("R10", "GRAM", where, text, False,
+               f"terminal {a} (word `{u}`, priority {defs[a].priority}, width {defs[a].pattern.max_width}) is tried before terminal {b} (word `{w}`, priority {defs[b].priority}, width "
+               f"{defs[b].pattern.max_width}) by lark's lexer and a parser state accepts both: the text `{w}` is lexed as `{u}` followed by the rest, the statement form with `{w}` is no longer "
+               f"accepted / read as written there" + (f" (+{len(live) - 1} more pair(s))" if len(live) > 1 else ""))
+    else:
+        ctx.ob("R10", "GRAM", where, text, True, f"{len(pairs)} pair(s) of terminals where a word tried earlier is a proper prefix of a word tried later (e.g. {sorted(pairs)[0]}), but no state of the "
+               f"LALR table ({len(states)} states) accepts both terminals of a pair: the contextual lexer never offers them together")
+
+
+def _tree_items(seq):
+    """All (op, arg) items of a regex syntax tree, nested ones included."""
+    for op, arg in seq:
+        yield op, arg
+        name = str(op)
+        if name == "SUBPATTERN":
+            yield from _tree_items(list(arg[-1]))
+        elif name == "BRANCH":
+            for a in arg[1]:
+                yield from _tree_items(list(a))
+        elif name in ("MAX_REPEAT", "MIN_REPEAT", "POSSESSIVE_REPEAT"):
+            yield from _tree_items(list(arg[2]))
+        elif name in ("ASSERT", "ASSERT_NOT"):
+            yield from _tree_items(list(arg[1]))
+
+
+# =====================================================================================================================
+# R11 - every node of the tree is printed by lark's tree matcher.
+#
+# The keywords and the punctuation of a statement are FILTERED OUT of the parse tree; only lark's Reconstructor puts them
+# back, by matching a node (name + kinds of its children) against the productions (R1 reasons about exactly that).  A
+# package subclass of the Reconstructor that overrides `_reconstruct(tree)` - the per-node step - with a path that does not
+# hand the node to the inherited method prints that node by itself.  Necessary condition: such a shortcut path is taken
+# only for nodes whose productions have no filtered terminal.  The nodes a shortcut admits are found by case analysis over
+# the grammar's own tree names (technique 5) against the literals the dominating branch tests compare `tree.data` with
+# (technique 2); a tree name is not a production: several productions (of different rules) may share it, and the matcher
+# tells them apart by their children, a test on the name does not.
+#   violated  : the tests of the path are all understood, some admitted tree name has a production with filtered
+#               terminals, and what the path emits is computed from the node alone (no constant text, no other data) -
+#               the filtered tokens of that production are not in the node, so they are not written;
+#   discharged: lark's own Reconstructor; a subclass that overrides nothing of lark's Reconstructor API; an override whose
+#               every emission is the inherited `_reconstruct` of the same node; a shortcut admitted only for nodes whose
+#               productions have no filtered terminal and only terminal children, emitting the node's children;
+#   undecided : a test on the path the rule does not understand (it may exclude the lossy productions), an emission that
+#               uses other data, a path without emission, other overridden methods of lark's Reconstructor API.
+# =====================================================================================================================
+_R11_TEXT = "the reconstructor prints every node by lark's tree matcher"
+
+
+def _lark_reconstructor_api():
+    try:
+        from lark.reconstruct import Reconstructor as _R
+    except ImportError:  # pragma: no cover
+        return None
+    return {n for n in dir(_R) if not (n.startswith("__") and n.endswith("__")) or n in ("__init__", "__new__", "__getattribute__", "__getattr__", "__call__")}
+
+
+def _bound_names(e):
+    out = set()
+    for n in ast.walk(e):
+        if isinstance(n, ast.Lambda):
+            out |= set(params(n))
+        elif isinstance(n, ast.comprehension):
+            out |= {x.id for x in ast.walk(n.target) if isinstance(x, ast.Name)}
+    return out
+
+
+def _admitted_tree_names(ctx, F: Func, node, tp: str, names):
+    """(tree names the dominating tests on `<tp>.data` admit at `node`, texts of the tests the rule does not understand)."""
+    from csverif.astutil import NotConst, const_eval
+    from csverif.q import dominating_conditions
+
+    admitted, opaque, seen = set(names), [], set()
+    for text, pol, test in dominating_conditions(ctx, F, node):
+        done = False
+        for left, op, right in (compare_parts(test) if isinstance(test, ast.Compare) and len(test.ops) == 1 else []):
+            if dotted(_inl(F, left)) != f"{tp}.data":
+                continue
+            try:
+                c = const_eval(_inl(F, right))
+            except NotConst:
+                continue
+            opn = type(op).__name__
+            if opn in ("Eq", "NotEq") and isinstance(c, str):
+                keep = {c}
+            elif opn in ("In", "NotIn") and isinstance(c, (tuple, list, set, frozenset)) and all(isinstance(x, str) for x in c):
+                keep = set(c)
+            else:
+                continue
+            if (opn in ("Eq", "In")) == pol:
+                admitted &= keep
+            else:
+                admitted -= keep
+            done = True
+            break
+        if not done:
+            if src(test) not in seen and not _is_mirror_of_seen(test, seen):
+                opaque.append(("" if pol else "not ") + text)
+            seen.add(src(test))
+        else:
+            seen.add(src(test))
+    return admitted, opaque
+
+
+def _is_mirror_of_seen(test, seen):
+    """dominating_conditions lists a comparison and its mirrored form: the mirror of a test already judged is not a new test."""
+    if isinstance(test, ast.Compare) and len(test.ops) == 1:
+        from csverif.astutil import flipped
+
+        m = flipped(test)
+        return m is not None and src(m) in seen
+    return False
+
+
+def _delegates_to_base(F: Func, e, tp: str, meth: str) -> bool:
+    """`super().<meth>(<tree>)` / `super(C, self).<meth>(<tree>)` / `<Base>.<meth>(self, <tree>)` with the node unchanged."""
+    e = _inl(F, e) if e is not None else None
+    if not (isinstance(e, ast.Call) and isinstance(e.func, ast.Attribute) and e.func.attr == meth and not e.keywords):
+        return False
+    recv = e.func.value
+    if isinstance(recv, ast.Call) and isinstance(recv.func, ast.Name) and recv.func.id == "super":
+        args = e.args
+    elif isinstance(recv, ast.Name) and e.args and isinstance(e.args[0], ast.Name) and e.args[0].id == (params(F.node) or ["self"])[0]:
+        args = e.args[1:]
+    else:
+        return False
+    return len(args) == 1 and isinstance(_inl(F, args[0]), ast.Name) and _inl(F, args[0]).id == tp
+
+
+def _r11_override(ctx, g: Grammar, F: Func):
+    """Verdict for an override of `_reconstruct(self, tree)`: ("ok" | "bad" | "undecided", explanation)."""
+    from csverif.cfg import ENTRY, EXIT
+    from csverif.q import FuncView
+
+    ps = params(F.node)
+    if len(ps) != 2:
+        return "undecided", f"{F.qualname} has another parameter list than lark's `_reconstruct(self, tree)`"
+    tp = ps[1]
+    if assignments_to(F.node, tp):
+        return "undecided", f"{F.qualname} rebinds its node parameter"
+    emits = [n for n in _own_nodes(F.node) if isinstance(n, (ast.Yield, ast.YieldFrom)) or (isinstance(n, ast.Return) and n.value is not None)]
+    shortcuts = [n for n in emits if isinstance(n, ast.Yield) or not _delegates_to_base(F, n.value, tp, F.node.name)]
+    cfg, fv = ctx.cfg(F), FuncView.of(F.node)
+    stmts = [fv.stmt_of(n) for n in emits]
+    silent = (not emits) or cfg.reaches(ENTRY, EXIT, avoiding=[cfg.node(st) for st in stmts if st is not None and cfg.has(st)])
+    names = sorted({r.tree_name for r in g.rules if not r.tree_name.startswith("__")})
+
+    # locals computed from the node alone: every binding is an assignment / a `for` target whose source is such an expression
+    def free(e):
+        return {x.id for x in ast.walk(e) if isinstance(x, ast.Name)} - _bound_names(e)
+
+    def pure(e):
+        return (all(x in derived or x in _BUILTIN_NAMES or getattr(ctx.rs.lookup_dotted(F.module.name, x), "kind", None) == "external" for x in free(e))
+                and not any(isinstance(x, ast.Constant) and isinstance(x.value, (str, bytes)) for x in ast.walk(e)))
+
+    sources = defaultdict(list)
+    for st in _own_nodes(F.node):
+        if isinstance(st, ast.For):
+            for x in ast.walk(st.target):
+                if isinstance(x, ast.Name):
+                    sources[x.id].append(st.iter)
+        elif isinstance(st, ast.Assign):
+            for t in st.targets:
+                for x in ast.walk(t):
+                    if isinstance(x, ast.Name):
+                        sources[x.id].append(st.value if isinstance(t, ast.Name) else None)
+        elif isinstance(st, (ast.AugAssign, ast.AnnAssign, ast.NamedExpr)) and isinstance(st.target, ast.Name):
+            sources[st.target.id].append(None)
+        elif isinstance(st, (ast.With, ast.ExceptHandler, ast.Global, ast.Nonlocal, ast.Import, ast.ImportFrom, ast.FunctionDef, ast.ClassDef)):
+            for x in ast.walk(st) if isinstance(st, ast.With) else []:
+                if isinstance(x, ast.Name) and isinstance(x.ctx, ast.Store):
+                    sources[x.id].append(None)
+    derived = {tp}
+    for _ in range(len(sources) + 1):
+        more = {nm for nm, vs in sources.items() if nm not in derived and vs and all(v is not None and pure(v) for v in vs)}
+        if not more:
+            break
+        derived |= more
+    verdicts = []
+    for n in shortcuts:
+        admitted, opaque = _admitted_tree_names(ctx, F, n, tp, names)
+        if not admitted:
+            continue  # the tests admit no tree name of the grammar: the path is not taken for a node of a profile
+        lossy = [r for r in g.rules if r.tree_name in admitted and r.filtered]
+        val = n.value
+        node_only = val is not None and pure(val) and bool(free(val) & derived)
+        shown = src(n)[:90]
+        if lossy and not opaque and node_only:
+            r = min(lossy, key=lambda r: r.order)
+            others = sorted({x.origin for x in g.rules if x.tree_name == r.tree_name and not x.filtered})
+            verdicts.append(("bad", f"`{shown}` in {F.qualname} is reached for every node named `{r.tree_name}` (the path tests the node name only) and emits what the node holds; the production "
+                                    f"`{r.origin}: {' '.join(x.literal or x.name for x in r.expansion)}` gives a node of that name whose tokens `{' '.join(r.filtered)}` are filtered out of the tree and "
+                                    f"only written by lark's tree matcher" + (f" (the name is shared with the token-only production of rule `{others[0]}`)" if others else "")
+                                    + ": the regenerated text lacks these tokens" + (f" (+{len({x.tree_name for x in lossy}) - 1} more node name(s))" if len({x.tree_name for x in lossy}) > 1 else "")))
+        elif lossy:
+            why = (f"tests the rule does not understand ({'; '.join(opaque[:2])}) may exclude them" if opaque else "what it emits is not computed from the node alone")
+            verdicts.append(("undecided", f"`{shown}` in {F.qualname} bypasses lark's tree matcher for node names that have productions with filtered tokens ({sorted({x.tree_name for x in lossy})[:4]}); {why}"))
+        else:
+            rs = [r for r in g.rules if r.tree_name in admitted]
+            leaf = all(sym.is_term for r in rs for sym in r.expansion)
+            v = _inl(F, val) if val is not None else None
+            plain = isinstance(n, ast.YieldFrom) and (dotted(v) == f"{tp}.children" or (isinstance(v, ast.Call) and dotted(v.func) in ("iter", "list", "tuple") and len(v.args) == 1 and dotted(v.args[0]) == f"{tp}.children"))
+            if leaf and plain:
+                verdicts.append(("ok", f"`{shown}` is reached only for {sorted(admitted)[:4]}: productions without filtered terminals whose children are tokens"))
+            else:
+                verdicts.append(("undecided", f"`{shown}` in {F.qualname} bypasses lark's tree matcher for {sorted(admitted)[:4]} (no filtered tokens there); whether it emits the node's tokens in order is not decided"))
+    bad = [d for k, d in verdicts if k == "bad"]
+    if bad:
+        return "bad", bad[0] + (f" (+{len(bad) - 1} more)" if len(bad) > 1 else "")
+    und = [d for k, d in verdicts if k == "undecided"]
+    if und:
+        return "undecided", und[0]
+    if silent:
+        return "undecided", f"{F.qualname} has a path on which nothing is emitted for the node"
+    return "ok", (f"every emission of {F.qualname} is the inherited `{F.node.name}` of the same node" if not verdicts else "; ".join(d for _k, d in verdicts[:2]))
+
+
+def r11(ctx, g: Grammar):
+    mod = ctx.repo.module(MOD)
+    renderers = _by_role(ctx, "C2Profile.as_text", lambda fn: bool(_reconstruct_calls(ctx, fn)))
+    if not renderers:
+        ctx.undecided("R11", "API", mod.funcs.get("C2Profile.as_text") or mod.relpath, _R11_TEXT, "no function of c2profile.py calls `.reconstruct(...)` on a lark Reconstructor")
+        return
+    api = _lark_reconstructor_api()
+    for f in renderers:
+        for _call, mk in _reconstruct_calls(ctx, f):
+            chain = _recon_class_chain(ctx, f, mk)
+            if not chain:
+                ctx.ob("R11", "API", f, _R11_TEXT, True, f"{f.qualname} uses lark's own Reconstructor class (`{src(mk.func)}`)", mk, nontrivial=False)
+                continue
+            cname = chain[0][0].name
+            if api is None:
+                ctx.undecided("R11", "API", f, _R11_TEXT, f"`{cname}` is a package subclass of lark's Reconstructor and lark's class is not importable to compare the method names", mk)
+                continue
+            overridden, other = [], []
+            for sym, node in chain:
+                for st in node.body:
+                    nm = [st.name] if isinstance(st, (ast.FunctionDef, ast.AsyncFunctionDef)) else \
+                         [t.id for t in st.targets if isinstance(t, ast.Name)] if isinstance(st, ast.Assign) else \
+                         [st.target.id] if isinstance(st, ast.AnnAssign) and isinstance(st.target, ast.Name) and st.value is not None else []
+                    for x in nm:
+                        if x in api:
+                            overridden.append((x, sym, st))
+                        else:
+                            other.append(x)
+            step = [(sym, st) for x, sym, st in overridden if x == "_reconstruct" and isinstance(st, ast.FunctionDef)]
+            rest = sorted({x for x, _s, st in overridden if not (x == "_reconstruct" and isinstance(st, ast.FunctionDef))})
+            results = []
+            for sym, st in step:
+                F = ctx.repo.modules[sym.module].funcs.get(f"{sym.name}._reconstruct")
+                results.append((F, _r11_override(ctx, g, F)) if F is not None and F.node is st else (None, ("undecided", f"`{sym.name}._reconstruct` is not indexed as a function of the package")))
+            bad = [(F, d) for F, (k, d) in results if k == "bad"]
+            und = [d for _F, (k, d) in results if k == "undecided"]
+            if bad:
+                ctx.ob("R11", "API", bad[0][0] or f, _R11_TEXT, False, f"{f.qualname} reconstructs with `{cname}`, a package subclass of lark's Reconstructor: " + bad[0][1], (bad[0][0] or f).node)
+            elif und or rest:
+                why = und[0] if und else f"`{cname}` overrides {rest} of lark's Reconstructor API; what the reconstruction then prints is outside the trusted description of lark's Reconstructor"
+                ctx.undecided("R11", "API", f, _R11_TEXT, f"{f.qualname} reconstructs with `{cname}`, a package subclass of lark's Reconstructor: " + why, mk)
+            else:
+                ctx.ob("R11", "API", f, _R11_TEXT, True, f"{f.qualname} reconstructs with `{cname}`, a package subclass of lark's Reconstructor that "
+                       + ("overrides nothing of lark's Reconstructor API" + (f" (adds {sorted(set(other))[:4]})" if other else "") if not step else "overrides the per-node step only to " + "; ".join(d for _F, (_k, d) in results)[:400]), mk)
 
 
 # =====================================================================================================================
